@@ -274,6 +274,23 @@ func C07(r *ev.Report) {
 	good := hex.EncodeToString(ref.Bytes32(big.NewInt(0x1234)))
 	bad := []string{good[:63], good + "0", "0x" + good[2:], "g" + good[1:], good[:31] + "z" + good[32:], good[:63] + " ", " " + good[:63], strings.Repeat("zz", 32), "0", "zz"}
 
+	for _, g := range []string{good, hex.EncodeToString(ref.Bytes32(new(big.Int).Sub(ref.N, big.NewInt(1))))} {
+		for _, pos := range []int{0, 1, len(g) / 2, len(g) - 2, len(g) - 1} {
+			for c := 0; c < 256; c++ {
+				if isHexDigit(byte(c)) {
+					continue
+				}
+
+				bad = append(bad, g[:pos]+string([]byte{byte(c)})+g[pos+1:])
+			}
+		}
+
+		// one extra byte of any value after a complete encoding
+		for c := 0; c < 256; c++ {
+			bad = append(bad, g+string([]byte{byte(c)}))
+		}
+	}
+
 	for _, h := range bad {
 		r.Transitions.Add(1)
 		r.Evals.Add(1)
